@@ -6,7 +6,8 @@
 
   `rcur buf rest` is the read cursor over `buf` whose unread part is the suffix `rest`; `rdRes buf f r` turns a model
   reader result (`some (value, rest')` / `none`) into the generated outcome (`.ok (rcur buf rest', f value)` /
-  `.err` — `io::Error`s are not distinguished).  `wcur w tail` is the write cursor that has written `w.out` and still
+  `.err (_, cursor)` — `io::Error`s are not distinguished; after `UnexpectedEof` the cursor stands at the end of the
+  buffer, `rdResE` names another position).  `wcur w tail` is the write cursor that has written `w.out` and still
   has the bytes `tail` of the buffer in front of it (`WrOk w tail : w.out.length + tail.length = w.cap`).
 -/
 import RenetVerif.Lemmas.SrcEquiv.NcSerialize
@@ -33,7 +34,8 @@ theorem nc_read_i32 (buf rest : Bytes) (h : rest <:+ buf) :
 
 /-- `read_sequence(source, len)` ↔ `Packet.readSequence` (for every `len`, including `len > 8`): never panics -/
 theorem nc_read_sequence (buf rest : Bytes) (h : rest <:+ buf) (len : Nat) :
-    Src.renetcode.packet.read_sequence (rcur buf rest) len = rdRes buf id (Packet.readSequence rest len) :=
+    Src.renetcode.packet.read_sequence (rcur buf rest) len =
+      rdResE buf id (if len > 8 then rest else []) (Packet.readSequence rest len) :=
   read_sequence_eq h len
 
 /-- `get_additional_data(prefix, protocol_id)` ↔ `Packet.additionalData`: never panics -/
@@ -43,13 +45,14 @@ theorem nc_get_additional_data {ε : Type} (pfx : UInt8) (protocolId : Nat) :
   get_additional_data_eq pfx protocolId
 
 example : Src.renetcode.serialize.read_u32 ⟨[9, 1, 2, 0, 0, 7], 1⟩ = .ok (⟨[9, 1, 2, 0, 0, 7], 5⟩, 513) := by decide +kernel
-example : Src.renetcode.serialize.read_u64 ⟨[9, 1, 2, 0, 0, 7], 1⟩ = .err .opaque := by decide +kernel
+example : Src.renetcode.serialize.read_u64 ⟨[9, 1, 2, 0, 0, 7], 1⟩ = .err (.opaque, ⟨[9, 1, 2, 0, 0, 7], 6⟩) := by decide +kernel
 example : Src.renetcode.serialize.read_i32 (ReadCursor.new [0xff, 0xff, 0xff, 0xff]) = .ok (⟨[0xff, 0xff, 0xff, 0xff], 4⟩, -1) := by
   decide +kernel
 example : Src.renetcode.serialize.read_bytes 2 (ReadCursor.new [5, 6, 7]) = .ok (⟨[5, 6, 7], 2⟩, [5, 6]) := by decide +kernel
 example : Src.renetcode.packet.read_sequence (ReadCursor.new [0x34, 0x12, 9]) 2 = .ok (⟨[0x34, 0x12, 9], 2⟩, 0x1234) := by
   decide +kernel
-example : Src.renetcode.packet.read_sequence (ReadCursor.new [0x34, 0x12, 9]) 9 = .err .opaque := by decide +kernel
+example : Src.renetcode.packet.read_sequence (ReadCursor.new [0x34, 0x12, 9]) 9 = .err (.opaque, ⟨[0x34, 0x12, 9], 0⟩) := by
+  decide +kernel
 example : (Src.renetcode.packet.get_additional_data 0x25 1 : Res Empty _) =
     .ok [78, 69, 84, 67, 79, 68, 69, 32, 49, 46, 48, 50, 0, 1, 0, 0, 0, 0, 0, 0, 0, 0x25] := by decide +kernel
 
